@@ -778,6 +778,13 @@ theorem step_minv (s : State) (op : Op) (h : MInv s) : MInv (step s op).1 := by
         split
         · exact dropCheckout_minv h r
         · exact h
+  | cancelOff r =>
+    simp only [step]
+    cases hh : s.held r with
+    | some p =>
+      simp only []
+      exact abortTask_minv ((h.frame (MFrame.of_eq (s' := { s with held := upd s.held r none }) rfl rfl rfl rfl rfl rfl)).frame (dropPooled_mframe _ p)) _
+    | none => exact h
   | dialDone r o =>
     simp only [step]
     split
